@@ -562,7 +562,7 @@ def cache_session(args):
             wls.append((truth, paths, indir))
             dirs.append((indir, "<in%d>" % j))
         mtimes = {}
-        clock = [1_000_000_000]
+        clock = [4_000_000_000]      # logical time stamps lie after every real one (a converted database is newer than its source)
         out = {"steps": [], "events": 0}
         outs = {}
         traces = []
@@ -885,6 +885,25 @@ def reuse(args):
             rk = run_once(rundir, truth, paths, o2, sched=args.get("sched2") or args.get("sched"), bufsize=args.get("bufsize", 8192),
                           argv_override=argv, logname="killed.log", outdir=out2, fault=f2)
             res["killed"] = {"crashed": rk["crashed"], "label": rk["crash_label"], "index": f2.get("index"), "exit": rk["exit"]}
+            bt = hist.get("between")
+            if bt and rk["crashed"]:
+                # while the run under test lies killed, ANOTHER restart from the same saved assignments works in its own output
+                # folder and is killed there (or completes); the two share nothing but their input
+                out3 = os.path.join(rundir, "out3")
+                bargv = [out3 if x == out2 else x for x in argv]
+                bf = dict(bt["fault"]) if bt.get("fault") else None
+                if bf and "index" not in bf:
+                    auxs = [os.path.join(r1["outdir"], p_, "aux") for p_ in r1["prefixes"]]
+                    _snapshot_dirs(auxs)
+                    pr = run_once(rundir, truth, paths, o2, sched=args.get("sched"), bufsize=args.get("bufsize", 8192),
+                                  argv_override=[os.path.join(rundir, "out_probe") if x == out2 else x for x in argv],
+                                  logname="probe_between.log", outdir=os.path.join(rundir, "out_probe"))
+                    _locate_fault(bf, pr["trace"])
+                    shutil.rmtree(os.path.join(rundir, "out_probe"), ignore_errors=True)
+                    _restore_dirs(auxs)
+                rb = run_once(rundir, truth, paths, o2, sched=args.get("sched"), bufsize=args.get("bufsize", 8192),
+                              argv_override=bargv, logname="between.log", outdir=out3, fault=bf)
+                res["between"] = {"crashed": rb["crashed"], "label": rb["crash_label"], "exit": rb["exit"]}
             if rk["crashed"]:
                 argv = ["--resume", "-o", out2]
         r2 = run_once(rundir, truth, paths, o2, sched=args.get("sched2") or args.get("sched"), bufsize=args.get("bufsize", 8192),
@@ -899,6 +918,21 @@ def reuse(args):
             except OSError:
                 pass
         res["events"] = r1["events"] + r2["events"]
+        if args.get("restart_again") and r2["exit"] == 0:
+            # the saved assignments are an input of the restart: a second restart from them (another folder) must work as well
+            out3 = os.path.join(rundir, "out3")
+            argv3 = [out3 if x == out2 else x for x in argv]
+            r3 = run_once(rundir, truth, paths, o2, sched=args.get("sched2") or args.get("sched"), bufsize=args.get("bufsize", 8192),
+                          argv_override=argv3, logname="again.log", outdir=out3)
+            res["again"] = {"exit": r3["exit"], "digests": norm(out3), "events": r3["events"]}
+            if r3["exit"] != 0:
+                res["again"]["log_tail"] = _log_tail(rundir, "again.log")
+                try:
+                    with open(os.path.join(rundir, "again.log"), "r", errors="replace") as f:
+                        res["again"]["failure_site"] = failure_site(f.read())
+                except OSError:
+                    pass
+            res["events"] += r3["events"]
         res["wall"] = time.time() - t0
         return res
     finally:
